@@ -53,7 +53,7 @@ def parsersExpected (kind : String) (data : Bytes) (struct : String) : Option (S
       match Bytes.ofHex ty, sz.toNat? with
       | some tyb, some n =>
         let line := Bytes.ofString o ++ [32] ++ tyb ++ [32] ++ Bytes.ofString sz ++ [10]
-        if line == data then some ("C16,C05", ["ok", o, ty, toString (clamp c32 n)]) else none
+        if line == data then some ("C16,C05", ["ok", o, ty, toString (clamp c64 n)]) else none
       | _, _ => none
     | _ => none
   | "ref" =>
